@@ -584,41 +584,196 @@ fn wrap(m: &Model, ctx: &mut Ctx) {
             ctx.violate("C02.wrap", "SetOf-vs-SequenceOf", &f.file, f.line, "a SEQUENCE OF component must be SequenceOf<T> and a SET OF component SetOf<T>");
         }
     }
-    // default annotation iff DEFAULT
+    let name_template = std::cell::RefCell::new("dflt_Parent_{}".to_string());
+    // default annotation iff DEFAULT: format_sequence_member evaluated — what it hands to format_member_or_option as the default
+    // annotation names default_method_name(parent, field) for a DEFAULT component and is empty otherwise
     if let Some(f) = anchor_fn(m, ctx, "C02.wrap", Some("Rasn"), "format_sequence_member", None) {
-        ctx.oblige("C02.wrap", "default-annotation", true);
-        let b = tok(&f.block);
-        if !(b.contains("member.optionality.default().map(|_|{") && b.contains("quote!(default=#default_fn)") && b.contains("self.default_method_name(parent_name,&member.name)")) {
-            ctx.violate("C02.wrap", "default-annotation", &f.file, f.line, "a DEFAULT component (and only that) carries `default = \"<parent>_<field>_default\"`, the name format_default_methods generates");
+        use std::collections::BTreeMap as Map;
+        let consts = const_resolver(m);
+        let seen = std::cell::RefCell::new(String::new());
+        let hook = |_: &Evaluator, name: &str, a: &[Val]| -> Option<Result<Val, String>> {
+            match name {
+                ".format_member_or_option" => {
+                    *seen.borrow_mut() = a.iter().map(|v| v.show()).collect::<Vec<_>>().join(" | ");
+                    let mut f = Map::new();
+                    f.insert("formatted_type_name".to_string(), Val::Sym("T".into()));
+                    f.insert("annotations".to_string(), Val::Sym("ANN".into()));
+                    Some(Ok(Val::Ctor("Ok".into(), vec![Val::Ctor("FormattedMemberOrOption".into(), vec![], f)], Map::new())))
+                }
+                ".to_rust_snake_case" => Some(Ok(Val::Sym("field".into()))),
+                ".default_method_name" => Some(Ok(Val::Sym(format!("dflt_{}_{}", a.get(1).map(|v| v.show()).unwrap_or_default().trim_matches('"'), a.get(2).map(|v| v.show()).unwrap_or_default().trim_matches('"'))))),
+                ".default" if a.len() == 1 => Some(Ok(match &a[0] { Val::Ctor(n, p, _) if n == "Default" => Val::some(p.first().cloned().unwrap_or(Val::Unit)), _ => Val::none() })),
+                ".unwrap_or_default" if a.len() == 1 => match &a[0] { Val::Ctor(n, p, _) if n == "Some" => Some(Ok(p[0].clone())), _ => Some(Ok(Val::Sym("".into()))) },
+                _ => None,
+            }
+        };
+        let ev = Evaluator { consts: &consts, call_hook: &hook, inline: None };
+        let params: Vec<String> = f.sig.inputs.iter().filter_map(|a| match a { syn::FnArg::Typed(t) => Some(tok(&t.pat)), _ => None }).collect();
+        for (opt, has_default) in [(Val::ctor("Required"), false), (Val::ctor("Optional"), false), (Val::Ctor("Default".into(), vec![Val::Sym("v".into())], Map::new()), true)] {
+            ctx.oblige("C02.wrap", &format!("default-annotation:{}", opt.show()), true);
+            let mut me = Map::new();
+            me.insert("name".to_string(), Val::Str("abc".into()));
+            me.insert("optionality".to_string(), opt.clone());
+            let mut env = Env::new();
+            env.insert("self".into(), Val::ctor("Rasn"));
+            env.insert(params.first().cloned().unwrap_or("member".into()), Val::Ctor("SequenceOrSetMember".into(), vec![], me));
+            env.insert(params.get(1).cloned().unwrap_or("parent_name".into()), Val::Str("Parent".into()));
+            env.insert(params.get(2).cloned().unwrap_or("extension_annotation".into()), Val::Sym("".into()));
+            match ev.eval_fn_body(&f.block, &mut env) {
+                Ok(_) => {
+                    let args = seen.borrow().replace(' ', "");
+                    // the name itself is default_method_name's business (any argument order): what matters is that the same
+                    // call names the function here and in format_default_methods (checked below against this template)
+                    let named = ["dflt_Parent_abc", "dflt_abc_Parent"].iter().find(|n| args.contains(&format!("default={}", n)) || args.contains(&format!("default=\"{}\"", n)));
+                    if let Some(n) = named {
+                        *name_template.borrow_mut() = n.replace("abc", "{}");
+                    }
+                    let names_fn = named.is_some();
+                    if names_fn != has_default {
+                        ctx.violate("C02.wrap", "default-annotation", &f.file, f.line, &format!("format_sequence_member for a {} component hands on the annotations `{}`: a DEFAULT component (and only that) carries `default = \"<default_method_name(parent, field)>\"`", opt.show(), args));
+                    }
+                }
+                Err(e) => ctx.fail_closed("C02.wrap", &format!("[default annotation {}]: {}", opt.show(), e)),
+            }
         }
     }
+    // format_default_methods evaluated: one `fn <default_method_name>() -> T { value }` per DEFAULT component, none for the others
     if let Some(f) = anchor_fn(m, ctx, "C02.wrap", Some("Rasn"), "format_default_methods", None) {
+        use std::collections::BTreeMap as Map;
+        let consts = const_resolver(m);
+        let hook = |_: &Evaluator, name: &str, a: &[Val]| -> Option<Result<Val, String>> {
+            match name {
+                "TokenStream::new" => Some(Ok(Val::Str(String::new()))),
+                ".value_to_tokens" => Some(Ok(Val::Ctor("Ok".into(), vec![Val::Sym("VAL".into())], Map::new()))),
+                ".type_to_tokens" => Some(Ok(Val::Ctor("Ok".into(), vec![Val::Sym("TY".into())], Map::new()))),
+                ".to_rust_title_case" => Some(Ok(Val::Sym("Ty".into()))),
+                ".default_method_name" => Some(Ok(Val::Sym(format!("dflt_{}_{}", a.get(1).map(|v| v.show()).unwrap_or_default().trim_matches('"'), a.get(2).map(|v| v.show()).unwrap_or_default().trim_matches('"'))))),
+                ".default" if a.len() == 1 => Some(Ok(match &a[0] { Val::Ctor(n, p, _) if n == "Default" => Val::some(p.first().cloned().unwrap_or(Val::Unit)), _ => Val::none() })),
+                _ => None,
+            }
+        };
+        let ev = Evaluator { consts: &consts, call_hook: &hook, inline: None };
+        let params: Vec<String> = f.sig.inputs.iter().filter_map(|a| match a { syn::FnArg::Typed(t) => Some(tok(&t.pat)), _ => None }).collect();
+        let mem = |n: &str, opt: Val| {
+            let mut me = Map::new();
+            me.insert("name".to_string(), Val::Str(n.into()));
+            me.insert("optionality".to_string(), opt);
+            me.insert("ty".to_string(), Val::Ctor("Boolean".into(), vec![Val::Opaque("b".into())], Map::new()));
+            Val::Ctor("SequenceOrSetMember".into(), vec![], me)
+        };
         ctx.oblige("C02.wrap", "default-fn-generated", true);
-        let b = tok(&f.block);
-        if !(b.contains("if let Some(value)=member.optionality.default()") && b.contains("let method_name=self.default_method_name(parent_name,&member.name)") && b.contains(&model::norm_tokens("fn #method_name() -> #ty { #val }"))) {
-            ctx.violate("C02.wrap", "default-fn-generated", &f.file, f.line, "for every DEFAULT component exactly one `fn <parent>_<field>_default() -> T { value }` must be generated, under the name the annotation refers to");
+        let mut env = Env::new();
+        env.insert("self".into(), Val::ctor("Rasn"));
+        env.insert(params.first().cloned().unwrap_or("members".into()), Val::List(vec![mem("a", Val::ctor("Required")), mem("b", Val::Ctor("Default".into(), vec![Val::Sym("v1".into())], Map::new())), mem("c", Val::ctor("Optional")), mem("d", Val::Ctor("Default".into(), vec![Val::Sym("v2".into())], Map::new()))]));
+        env.insert(params.get(1).cloned().unwrap_or("parent_name".into()), Val::Str("Parent".into()));
+        match ev.eval_fn_body(&f.block, &mut env) {
+            Ok(Val::Ctor(ok, p, _)) if ok == "Ok" => {
+                let out = p.first().map(|v| match v { Val::Str(s) | Val::Sym(s) => s.replace(' ', ""), o => o.show() }).unwrap_or_default();
+                let t = name_template.borrow().clone();
+                let want = format!("fn{}()->TY{{VAL}}fn{}()->TY{{VAL}}", t.replace("{}", "b"), t.replace("{}", "d"));
+                if out != want {
+                    ctx.violate("C02.wrap", "default-fn-generated", &f.file, f.line, &format!("format_default_methods for the components a, b DEFAULT, c OPTIONAL, d DEFAULT generates `{}`; expected one `fn <default_method_name>() -> T {{ value }}` for b and for d: `{}`", out, want));
+                }
+            }
+            Ok(o) => ctx.fail_closed("C02.wrap", &format!("[format_default_methods]: {}", o.show().chars().take(120).collect::<String>())),
+            Err(e) => ctx.fail_closed("C02.wrap", &format!("[format_default_methods]: {}", e)),
         }
     }
-    // set marker and SetOf selection
+    // set marker: the local that is put into the annotation list is evaluated for SET and SEQUENCE
     if let Some(f) = anchor_fn(m, ctx, "C02.wrap", Some("Rasn"), "generate_sequence_or_set", None) {
+        use std::collections::BTreeMap as Map;
+        struct L { out: Vec<syn::Local> }
+        impl model::DeepCb for L {
+            fn local(&mut self, l: &syn::Local) {
+                if let Some(init) = &l.init {
+                    let t = tok(&init.expr);
+                    if t.contains("quote!(set)") {
+                        self.out.push(l.clone());
+                    }
+                }
+            }
+        }
+        let mut lc = L { out: vec![] };
+        model::deep_walk_block(&f.block, &mut lc);
         ctx.oblige("C02.wrap", "set-annotation", true);
-        let b = tok(&f.block);
-        if !b.contains("let set_annotation=if let ASN1Type::Set(_)=tld.ty{quote!(set)}else{TokenStream::new()}") || !b.contains("vec![set_annotation,") {
-            ctx.violate("C02.wrap", "set-annotation", &f.file, f.line, "a SET (and only a SET) must carry the `set` annotation");
+        match lc.out.first() {
+            None => ctx.violate("C02.wrap", "set-annotation", &f.file, f.line, "a SET (and only a SET) must carry the `set` annotation (no such decision found)"),
+            Some(l) => {
+                let var = tok(&l.pat);
+                let consts = const_resolver(m);
+                let hook = |_: &Evaluator, name: &str, _: &[Val]| -> Option<Result<Val, String>> { if name == "TokenStream::new" { Some(Ok(Val::Sym(String::new()))) } else { None } };
+                let ev = Evaluator { consts: &consts, call_hook: &hook, inline: None };
+                for (kind, want) in [("Set", true), ("Sequence", false)] {
+                    let mut t = Map::new();
+                    t.insert("ty".to_string(), Val::Ctor(kind.into(), vec![Val::Opaque("payload".into())], Map::new()));
+                    let mut env = Env::new();
+                    env.insert("tld".into(), Val::Ctor("ToplevelTypeDefinition".into(), vec![], t));
+                    match ev.eval(&l.init.as_ref().unwrap().expr, &mut env) {
+                        Ok(v) => {
+                            let got = match &v { Val::Sym(s) | Val::Str(s) => s.trim() == "set", _ => false };
+                            if got != want {
+                                ctx.violate("C02.wrap", "set-annotation", &f.file, span_line(l), &format!("for a {} the `set` annotation is {}: a SET (and only a SET) carries it", kind.to_uppercase(), if got { "emitted" } else { "missing" }));
+                            }
+                        }
+                        Err(e) => ctx.fail_closed("C02.wrap", &format!("[set annotation {}]: {}", kind, e)),
+                    }
+                }
+                let b = tok(&f.block);
+                if !b.contains(&format!("vec![{},", var)) && !b.contains(&format!(",{},", var)) && !b.contains(&format!(",{}]", var)) {
+                    ctx.violate("C02.wrap", "set-annotation", &f.file, f.line, &format!("the decision `{}` is not put into the annotation list", var));
+                }
+            }
         }
     }
+    // SET OF selects SetOf<T>: the flag computed in generate_sequence_or_set_of is evaluated per kind, and the template for both values
     if let Some(f) = anchor_fn(m, ctx, "C02.wrap", Some("Rasn"), "generate_sequence_or_set_of", None) {
+        use std::collections::BTreeMap as Map;
         ctx.oblige("C02.wrap", "set-of-selection", true);
-        let b = tok(&f.block);
-        if !(b.contains("ASN1Type::SetOf(se_of)=>(true,se_of)") && b.contains("ASN1Type::SequenceOf(se_of)=>(false,se_of)") && b.contains("sequence_or_set_of_template(is_set_of,")) {
-            ctx.violate("C02.wrap", "set-of-selection", &f.file, f.line, "SET OF must select SetOf<T>, SEQUENCE OF SequenceOf<T>");
+        let consts = const_resolver(m);
+        let hook = |_: &Evaluator, _: &str, _: &[Val]| -> Option<Result<Val, String>> { None };
+        let ev = Evaluator { consts: &consts, call_hook: &hook, inline: None };
+        // the match over tld.ty that yields (flag, payload)
+        let mt = model::matches_in(&f.block).into_iter().find(|mt| mt.arms.iter().any(|a| tok(&a.pat).contains("ASN1Type::SetOf(")) && mt.arms.iter().any(|a| { let b = tok(&a.body); b.contains("true") || b.contains("false") }));
+        match mt {
+            None => ctx.violate("C02.wrap", "set-of-selection", &f.file, f.line, "SET OF must select SetOf<T>, SEQUENCE OF SequenceOf<T> (no such decision found)"),
+            Some(mt) => {
+                for (kind, want) in [("SetOf", true), ("SequenceOf", false)] {
+                    let v = Val::Ctor(kind.into(), vec![Val::Sym("payload".into())], Map::new());
+                    match ev.select_arm(&mt, &v, &Env::new()).and_then(|(i, mut e2)| ev.eval(&mt.arms[i].body, &mut e2)) {
+                        Ok(Val::Tuple(t)) if matches!(t.first(), Some(Val::Bool(_))) => {
+                            if t[0] != Val::Bool(want) {
+                                ctx.violate("C02.wrap", "set-of-selection", &f.file, span_line(&mt), &format!("for a {} the is-set-of flag is {}", kind, t[0].show()));
+                            }
+                        }
+                        Ok(o) => ctx.fail_closed("C02.wrap", &format!("[set-of selection {}]: {}", kind, o.show())),
+                        Err(e) => ctx.fail_closed("C02.wrap", &format!("[set-of selection {}]: {}", kind, e)),
+                    }
+                }
+            }
         }
     }
     if let Ok(f) = m.find_fn(None, "sequence_or_set_of_template", Some("generator::rasn")) {
         ctx.oblige("C02.wrap", "set-of-template", true);
-        let b = tok(&f.block);
-        if !b.contains("is_set_of.then(||quote!(SetOf)).unwrap_or(quote!(SequenceOf))") {
-            ctx.violate("C02.wrap", "set-of-template", &f.file, f.line, "sequence_or_set_of_template must pick SetOf exactly when is_set_of");
+        let consts = const_resolver(m);
+        let hook = |_: &Evaluator, _: &str, _: &[Val]| -> Option<Result<Val, String>> { None };
+        let ev = Evaluator { consts: &consts, call_hook: &hook, inline: None };
+        let params: Vec<String> = f.sig.inputs.iter().filter_map(|a| match a { syn::FnArg::Typed(t) => Some(tok(&t.pat)), _ => None }).collect();
+        for flag in [true, false] {
+            let mut env = Env::new();
+            for p in &params {
+                env.insert(p.clone(), Val::Sym(format!("<{}>", p)));
+            }
+            env.insert(params.first().cloned().unwrap_or("is_set_of".into()), Val::Bool(flag));
+            match ev.eval_fn_body(&f.block, &mut env) {
+                Ok(v) => {
+                    let t = v.show().replace(' ', "");
+                    let (want, other) = if flag { ("SetOf<", "SequenceOf<") } else { ("SequenceOf<", "SetOf<") };
+                    if !t.contains(want) || t.contains(other) {
+                        ctx.violate("C02.wrap", "set-of-template", &f.file, f.line, &format!("sequence_or_set_of_template(is_set_of = {}) renders `{}`: it must pick SetOf exactly when is_set_of", flag, t.chars().take(120).collect::<String>()));
+                    }
+                }
+                Err(e) => ctx.fail_closed("C02.wrap", &format!("[set-of template]: {}", e)),
+            }
         }
     }
     ctx.sample(json!({"pairs": PAIRS}));
